@@ -254,6 +254,41 @@ def bounded(ctx):
                                     name, role_, code_), case=dict(enzyme=name, record=t2_)))
             if len(samples) < 2:
                 samples.append(dict(enzyme=name, chain=chain_len))
+    # junctions between the VECTOR and the first / last module that spell the recognition site (or its mirror image) in
+    # the product, across the ligation scar -- where the product's own origin may fall: both strands assemble alike
+    for (name, e, site, a, k) in enz:
+        if len(site) != k + 2 or not (name in sweep or ctx.tier != "quick"):
+            continue
+        Mod = type("GModule", (core.Entry,), dict(cutter=e))
+        Vec = type("GVector", (core.EntryVector,), dict(cutter=e))
+        for word in (site, gen.rc(site)):
+            for where in ("vector-to-first-module", "last-module-to-vector"):
+                inner = word[1:-1]
+                other = None
+                for _t in range(60):
+                    o_ = ba.clean(rng, k, e)
+                    if o_ != inner and gen.rc(o_) not in (inner, o_) and gen.rc(inner) != o_:
+                        other = o_
+                        break
+                if other is None or gen.rc(inner) == inner:
+                    continue
+                if where == "vector-to-first-module":
+                    mt = ba.build_module(e, inner, word[-1] + ba.clean(rng, 5, e), other, rng)
+                    vt, _vf = ba.build_vector(e, other, inner, rng, last=word[0])
+                else:
+                    mt = ba.build_module(e, other, ba.clean(rng, 5, e) + word[0], inner, rng)
+                    vt, _vf = ba.build_vector(e, inner, other, rng, first=word[-1])
+                if mt is None or vt is None:
+                    continue
+                evals += 1
+                mk = lambda t_, i_, C=Mod: C(CircularRecord(Seq(t_), id=i_))
+                got, prod, _ = ba.run_assembly(Vec(CircularRecord(Seq(vt), id="v")), [mk(mt, "m0")])
+                gotr, prodr, _ = ba.run_assembly(Vec(CircularRecord(Seq(gen.rc(vt)), id="v")), [mk(gen.rc(mt), "m0")])
+                distinct.add((name, "vector-scar", word, where))
+                if got[0] != gotr[0] or (prod is not None and not ba.is_rotation(str(prodr.seq), gen.rc(str(prod.seq)))):
+                    viol.append(dict(name="vector_scar_%s" % name, what="%s: the junction %s spells %s across the scar: %r, the mirror image %r" % (
+                        name, where.replace("-", " "), word, got[:2] if got[0] != "product" else got[:1], gotr[:2] if gotr[0] != "product" else gotr[:1]),
+                                     case=dict(enzyme=name, vector=vt, modules=[mt])))
     # the recorded finding, deterministically (a fixed BsaI chain of two whose downstream overhangs are AACG / CGTT)
     try:
         from Bio.Restriction import BsaI
